@@ -103,9 +103,12 @@ CHECKS['C19'] = dict(
     text='Seeded search over object sizes (unsegmented, 1-12 segments), discovery answers (any segment / unsegmented), '
          'FinalBlockId placement and per-segment reply patterns (lost, Nack, duplicate, delayed around the lifetime, rejected '
          'by the validator); oracle = reference walk of the retry policy: exact yielded sequence, exact terminating '
-         'exception, exact number of Interests the producer sees per segment.',
+         'exception, exact number of Interests the producer sees per segment. In 30% of the runs two or three fetches of the '
+         'same object, and plain consumers asking for its names, share one application and start at staggered times; there '
+         'each fetch must still yield the object in order and completely, and must complete when no reply is lost or late.',
     note='Trusted: SimLoop, the scripted producer, the reference walk. Replies delayed to within 1.5 ms of (or beyond) the '
-         'Interest lifetime only get the safety checks (in-order prefix, no skip, no duplicate).',
+         'Interest lifetime only get the safety checks (in-order prefix, no skip, no duplicate). With several consumers on '
+         'one application which reply answers whose Interest depends on the schedule: attempts are not counted there.',
     real=REAL_COMMON + ['ndn.app_support.segment_fetcher', 'ndn.app.NDNApp (express_interest pipeline)', 'ndn.name_tree'],
     stub=STUB_COMMON + ['the producer (engines/segfetch.py)'],
     rule='seed -> object + discovery answer + per-segment reply pattern relative to retry_times (incl. exactly retry_times-1, '
